@@ -149,4 +149,49 @@ def exExt : TypeDef := { kind := .object, name := "Query", fields := [{ name := 
 example : (collectDefinitions [.ext exExt, .type exQuery, .other]).toBool = true := by decide
 example : (collectDefinitions [.type exQuery, .type exQuery]).toBool = false := by decide
 
+/-! ### finding S8 (refutation witness) and a non-trivial valid instance -/
+
+/-- `type Query { f(a: E = B): Int }  enum E { A }  extend enum E { B }` -/
+def s8Doc : Doc := [
+  .type { kind := .object, name := "Query",
+          fields := [{ name := "f", type := .named "Int", args := [{ name := "a", type := .named "E", default := some (.enum "B") }] }] },
+  .type { kind := .enum, name := "E", values := [{ name := "A" }] },
+  .ext { kind := .enum, name := "E", values := [{ name := "B" }] }]
+
+example : (Declared s8Doc).isSome = true := by decide
+example : (build s8Doc).toBool = false := by decide
+example : (match build s8Doc with | .error (.lib .sdl) => true | _ => false) = true := by decide
+
+/-- the S8 document satisfies every rule of the specification -/
+theorem s8_valid : SdlValid s8Doc :=
+  { uniqueTypes := by decide, uniqueDirectives := by decide, oneSchema := by decide, extTargets := by decide,
+    noBuiltinNames := by decide, declares := by decide, mergedMembersUnique := by decide }
+
+/-- `build_exact` at full strength is FALSE on the (fixed) code: finding S8 — default literals are coerced
+    against the un-extended definitions. Replay: corpus/C11 `S8-default-needs-extension-enum-value`. -/
+theorem build_exact_refuted : ¬ BuildExactStatement := fun h => by
+  obtain ⟨s, d, hb, _, _⟩ := h s8Doc s8_valid
+  have h2 : (build s8Doc).toBool = false := by decide
+  rw [hb] at h2
+  simp [Except.toBool] at h2
+
+def okDoc : Doc := [
+  .ext { kind := .object, name := "Query", fields := [{ name := "c", type := .named "A" }] },
+  .type { kind := .object, name := "Query", desc := some "root",
+          fields := [{ name := "f", type := .named "Int", dirs := [{ name := "deprecated" }],
+                       args := [{ name := "a", type := .list (.named "E"), default := some (.enum "B") },
+                                { name := "i", type := .named "A", default := some (.obj [("a", .obj [])]) }] }] },
+  .type { kind := .enum, name := "E", values := [{ name := "A" }, { name := "B", dirs := [{ name := "deprecated", args := [("reason", .str "old")] }] }] },
+  .type { kind := .input, name := "A", inputFields := [{ name := "a", type := .named "A" }, { name := "s", type := .named "String", default := some (.str "x") }] },
+  .ext { kind := .object, name := "Query", fields := [{ name := "d", type := .nonNull (.named "Query") }] },
+  .schema { ops := [("query", "Query")] }]
+
+example : SdlValid okDoc :=
+  { uniqueTypes := by decide, uniqueDirectives := by decide, oneSchema := by decide, extTargets := by decide,
+    noBuiltinNames := by decide, declares := by decide, mergedMembersUnique := by decide }
+def shape (s : SchemaD) : List (String × List String) :=
+  (s.types.map fun t => (t.name, t.fields.map (·.name) ++ t.values.map (·.name) ++ t.inputFields.map (·.name))) ++ [("query", s.query.toList)]
+example : ((build okDoc).toOption.map shape == (Declared okDoc).map shape) = true := by decide
+example : ((build okDoc).toOption.map shape).isSome = true := by decide
+
 end PyGql.Props.C11
